@@ -166,7 +166,9 @@ func (s *Store) AddSourceSnapshot(ckpt *jobpb.SourceRunnerCheckpointCompleteRequ
 func (s *Store) RegisterSourceSplitter(splitter connectors.SourceSplitter) {
 	s.stateMu.Lock()
 	defer s.stateMu.Unlock()
-	s.sourceSplitters = append(s.sourceSplitters, splitter)
+	// The job creates a new splitter every time it (re)starts an assembly: the
+	// latest one replaces the previous one (only one source is supported).
+	s.sourceSplitters = []connectors.SourceSplitter{splitter}
 }
 
 func (s *Store) finishSnapshot(snap *jobSnapshot) {
